@@ -108,6 +108,8 @@ package peering
 //@   callsite append#3 then-the-secret [C04]: base(arg0) == base(authData) && len(arg0) == len(universe) + len(challenge) && base(arg1) == base(secretData) && len(arg1) == len(secret) && (forall i int :: 0 <= i && i < len(secret) ==> arg1[i] == secret[i])
 //@   callsite append#4 then-remote-address [C04]: base(arg0) == base(authData) && len(arg0) == len(universe) + len(challenge) + len(secret)
 //@   callsite append#5 then-own-address [C04]: base(arg0) == base(authData) && len(arg0) >= len(universe) + len(challenge) + len(secret)
+//@   callsite netip.Addr.AsSlice#1 remote-address-first [C04]: arg0 == remoteIP
+//@   callsite netip.Addr.AsSlice#2 then-the-own-address [C04]: arg0 == idIP
 //@   callsite Hash.Digest digest-of-that-buffer [C04]: base(arg1) == base(authData) && off(arg1) == 0 && len(arg1) >= len(universe) + len(challenge) + len(secret)
 
 //@ type peeringRequestState
